@@ -80,7 +80,9 @@ def AdlerHasher.update (h : AdlerHasher) (x : List UInt8) : AdlerHasher :=
   let st := if h.started then h.state else 1
   { state := adlerUp st x, started := true }
 
-def AdlerHasher.checksum (h : AdlerHasher) : Nat := h.state
+/-- `hasher.checksum_u32`: `if not this.started { return 1 }  return this.state` — a hasher that never
+    received an `update!` call reports the Adler-32 of the empty string (fixes/C07-adler32-zero-updates.patch). -/
+def AdlerHasher.checksum (h : AdlerHasher) : Nat := if h.started then h.state else 1
 
 /-! ## CRC (reflected), generic in the width -/
 
@@ -262,6 +264,13 @@ def be64 (v : Nat) : List UInt8 :=
 def shaDigestBytes (hh : Sha256H) : List UInt8 :=
   hh.toList.flatMap (fun (w : UInt32) => [(w >>> 24).toUInt8, (w >>> 16).toUInt8, (w >>> 8).toUInt8, w.toUInt8])
 
+/-- The chaining value `checksum_bitvec256` starts from: `if (this.length_modulo_u64 == 0) and not
+    this.length_overflows_u64 { h0 = INITIAL_SHA256_H[0] … } else { h0 = this.h0 … }` — as long as no byte was
+    absorbed (in particular with no `update!` call at all, when `this.h0 ..= this.h7` are still zero) the digest
+    starts from the initial hash value (fixes/C07-sha256-zero-updates.patch). -/
+def ShaHasher.startH (s : ShaHasher) : Sha256H :=
+  if s.lengthModuloU64 == 0 && !s.lengthOverflowsU64 then shaInit else s.h
+
 /-- `hasher.checksum_bitvec256`, as the 32 digest bytes (a‖b‖…‖h big-endian). -/
 def ShaHasher.checksum (s : ShaHasher) : List UInt8 :=
   let bufLen := s.bufLen % 64
@@ -269,11 +278,11 @@ def ShaHasher.checksum (s : ShaHasher) : List UInt8 :=
   let lengthInBits := (s.lengthModuloU64 * 8) % 18446744073709551616
   if bufLen < 56 then
     let blk := data ++ [0x80] ++ List.replicate (55 - bufLen) 0 ++ be64 lengthInBits
-    shaDigestBytes (shaCompress s.h blk)
+    shaDigestBytes (shaCompress s.startH blk)
   else
     let blk1 := data ++ [0x80] ++ List.replicate (63 - bufLen) 0
     let blk2 := List.replicate 56 0 ++ be64 lengthInBits
-    shaDigestBytes (shaCompress (shaCompress s.h blk1) blk2)
+    shaDigestBytes (shaCompress (shaCompress s.startH blk1) blk2)
 
 /-- FIPS 180-4 §5.1.1 padding of a whole message. -/
 def shaPad (msg : List UInt8) : List UInt8 :=
